@@ -236,6 +236,33 @@ def directed_floats(rng, thorough):
     return _dedupe(out)
 
 
+WIDTHS = ["1", "2", "4", "W"]     # char, char16_t, char32_t, wchar_t (wchar_t has its own DigitUtils tables)
+
+
+def padding_doubles():
+    """Values whose texts contain every run length of padding zeros the property's precisions allow: trailing
+    zeros of Fixed (few fraction digits: run = precision - fraction digits, 0..40), leading zeros after `0.`
+    (10^-k, 5*10^-k, 2^-k: run up to 40), texts that are all zeros (values rounding to zero), the 19-digit chunk
+    padding of `bigIntToString`, and the integer-valued cases."""
+    import math
+    v = [0.0, -0.0, 1.0, -2.0, 1.5, -1.5, 0.25, 0.125, 0.0625, 7.0, 10.0, 123456.0, 1e15, 1e19, 1e20, 1e38, 2.0 ** 60, 2.0 ** 64,
+         2.0 ** 100, 1e22, 1e23, 12345678901234567890.0, 1e100, 5e-324, 2.2250738585072014e-308, 0.5, 0.75, 2.5, 1e-5, 9.5, 0.1, 1 / 3.0]
+    for k in range(1, 46):
+        v += [float("1e-%d" % k), float("5e-%d" % k), float("25e-%d" % (k + 1)), math.ldexp(1.0, -k), math.ldexp(3.0, -k)]
+    for k in range(1, 20):
+        v += [float(10 ** k) + 0.5, float(10 ** k), float(10 ** 19 * 10 ** k)]
+    return _dedupe([d2b(x) for x in v])
+
+
+def padding_floats():
+    import math
+    v = [0.0, -0.0, 1.0, -2.0, 1.5, 0.25, 0.125, 7.0, 123456.0, 1e15, 1e20, 1e38, 2.0 ** 60, 0.5, 0.1]
+    for k in range(1, 46):
+        v += [float("1e-%d" % k), math.ldexp(1.0, -k)]
+    return _dedupe([f2b(x) for x in v if fits_float(x)])
+
+
+
 def double_values(rng, thorough):
     """bit patterns: (label, [bits])"""
     groups = []
